@@ -815,3 +815,28 @@ def holds(ctx, body, spec, targets=None, cut_back_edges=True, start=None):
     path, gs = g.unguarded_path(spec)
     bad = [x for x in gs if x[2].get("bad_polarity")]
     return path is None, [body.loc(b) for b, _, _ in gs if (b, _, _) not in bad]
+
+
+def call_result_honoured(ctx, body, b, rule, what, spec=None):
+    """The result of the call in block b is honoured: from the call's return, neither an
+    accepting exit nor the end of the current loop iteration is reachable except through the
+    passing edge of a guard on that call's result (`?`, match with a rejecting arm, ...)."""
+    t = body.blocks[b]["t"]
+    if spec is None:
+        spec = Has("call:" + callee_of(t))
+    nxt = [d for d, _ in body.out_edges(b)]
+    back = set()
+    for x in body.reachable_from(nxt):
+        for d in body.succ(x):
+            if body.dominates(d, x) and body.dominates(d, b):
+                back.add(x)
+    acc = [x["block"] for x in exit_sites(body) if x["kind"] in ("accept", "may")]
+    g = Guards(ctx, body, targets=list(back) + acc, cut_back_edges=True, start=nxt)
+    ctx.evaluations += len(g.switches)
+    path, gs = g.unguarded_path(spec)
+    if path is None:
+        ctx.ok(rule, body.path, what, site=body.loc(b), detail=dict(guards=[body.loc(x) for x, _, _ in gs]))
+        return True
+    rp = body.render_path(path)
+    ctx.violate(rule, body.path, "%s: the call's result can be ignored" % what, site=body.loc(b), key="%s|%s|ignored" % (rule, body.path), path=rp)
+    return False
